@@ -9,7 +9,7 @@ ID = 'C03'
 ENGINE = 'E1 choice-point explorer: full product on the first channel, deviation-bounded elsewhere'
 RULE = ("per (dtype, source kind) shard: full product of byte order x shape {scalar,(R,1),(R,2),(R,3),wider than a "
         "record} x layout {C,F,strided,read-only,view} on the first channel; rows, channel count, second/third channel "
-        "attributes, cast, value-palette offset, input chunk, record length and an earlier write of the same objects "
+        "attributes, cast, value-palette offset, input chunk, row window, record length and an earlier write of the same objects "
         "with data of another dtype / other values explored up to the deviation bound from the default; values are bit patterns (extremes, +-0, +-inf, quiet/signalling NaN payloads, denormals); "
         "non-trivial = file written and every row compared bit for bit")
 ASSUMPTIONS = ["strict reader mc/rp66.py", "reference model mc/model.py", "numpy astype defines the result of a "
@@ -38,8 +38,8 @@ SRC = ['inline', 'dict', 'struct', 'h5']
 
 
 def shards(tier):
-    return [{'dtype': d, 'src': s} for d in DTYPES for s in SRC] + [{'dtype': 'uint16', 'src': 'dict', 'many_rows': n}
-                                                                     for n in (130, 16390)]
+    return [{'dtype': d, 'src': s, 'tier': tier} for d in DTYPES for s in SRC] + \
+        [{'dtype': 'uint16', 'src': 'dict', 'many_rows': n} for n in (130, 16390)]
 
 
 def bound(tier, shard):
@@ -86,13 +86,24 @@ def body(ctx, shard):
     chunk = rows if chunk == 'R' else rows + 1 if chunk == 'R+1' else chunk
     # the same objects may have been written before with data of another dtype / other values (dict source only)
     earlier = ctx.choose('earlier-write', ['none', 'other-dtype', 'same-dtype-other-values']) if src == 'dict' else 'none'
-    return run_built({'src': src, 'vrl': vrl, 'chans': chans, 'chunk': chunk, 'earlier': earlier})
+    # a row window: exactly the rows inside it, numbered from 1 (windows in depth are C11's business)
+    # (free in the quick tier so that window x one more deviation is covered; the thorough bound 2 covers it anyway)
+    win = ctx.choose('window', ['all', 'from-1', 'to-last-but-one', 'middle'], free=shard.get('tier') != 'thorough')
+    lo, hi = {'all': (0, None), 'from-1': (1, None), 'to-last-but-one': (0, rows - 1), 'middle': (1, rows - 1)}[win]
+    if (rows if hi is None else hi) - lo < 1:
+        lo, hi = 0, None
+    return run_built({'src': src, 'vrl': vrl, 'chans': chans, 'chunk': chunk, 'earlier': earlier, 'win': [lo, hi]})
 
 
 def make_spec(c):
     sp = {'sul': {'max_record_length': c['vrl']}, 'ops': [S.op_lf(), S.op_origin()], 'write': {}}
     if c['chunk'] is not None:
         sp['write']['input_chunk_size'] = c['chunk']
+    lo, hi = c.get('win') or (0, None)
+    if lo:
+        sp['write']['from_idx'] = lo
+    if hi is not None:
+        sp['write']['to_idx'] = hi
     refs = []
     data = {}
     for i, ch in enumerate(c['chans']):
@@ -180,7 +191,7 @@ def run_built(c):
 
 
 def _short(c):
-    return {'src': c['src'], 'vrl': c['vrl'], 'chunk': c['chunk'], 'earlier': c.get('earlier'),
+    return {'src': c['src'], 'vrl': c['vrl'], 'chunk': c['chunk'], 'earlier': c.get('earlier'), 'win': c.get('win'),
             'chans': [{k: (v if k != 'pat' else f'<{len(v)} patterns>') for k, v in ch.items()} for ch in c['chans']]}
 
 
